@@ -180,11 +180,17 @@ class Check:
                     break
         return best, runs
 
+    def build_failed(self, e):
+        return _build_failure_report(self.prop, e, self.tier, self.seed)
+
     # ---- main loop
     def run(self):
         prop = self.prop
         variants = sorted(set(c["variant"] for c in prop.CONFIGS.values()))
-        build.build_all(variants)
+        try:
+            build.build_all(variants)
+        except build.BuildError as e:
+            return self.build_failed(e)
         t_start = time.time()
         deadline = t_start + self.budget_s
         batch = max(self.workers * 4, 32)
@@ -341,7 +347,51 @@ class Check:
         return exit_code
 
 
+def _build_failure_report(prop, e, tier, seed):
+    """A variant of the tree under test could not be built. When the failing step is the variant's own interpreter running one
+    of the project's programs (the build generates the stub modules with it), the tree misbehaves under that configuration:
+    reported as a violation with the failing command as the replay. A compile/link error means the tree cannot be examined."""
+    variant = getattr(e, "variant", "?")
+    tail = e.output[-3000:]
+    if not e.interpreter_failed():
+        sys.stderr.write(tail)
+        print("CHECK-BROKEN property=%s the tree does not build in the %s configuration: %s" % (prop.ID, variant, str(e)))
+        return 2
+    os.makedirs(REPLAYS, exist_ok=True)
+    path = os.path.join(REPLAYS, "%s-%d-build-%s.json" % (prop.ID, seed, variant))
+    lines = [l for l in tail.splitlines() if l.strip()]
+    fail_i = max([i for i, l in enumerate(lines) if l.startswith("FAILED:")] or [0])
+    detail = " | ".join(lines[fail_i:fail_i + 4])[:700]
+    with open(path, "w") as f:
+        json.dump({"property": prop.ID, "seed": seed, "violation": {"class": "build:interpreter-failed-in-" + variant, "detail": detail, "sig": {}},
+                   "build": {"variant": variant, "cmd": e.cmd}, "trace": "build"}, f, indent=1)
+    os.makedirs(EVIDENCE, exist_ok=True)
+    with open(os.path.join(EVIDENCE, prop.ID + ".json"), "w") as f:
+        json.dump({"property_id": prop.ID, "tier": tier, "seed": seed, "level": "exploration",
+                   "coverage": {"evaluations": 0, "distinct_nontrivial": 0, "rule": prop.RULE, "samples": [],
+                                "note": "the %s configuration of the tree could not be built: its interpreter failed while running the project's own build programs" % variant},
+                   "assumptions": prop.ASSUMPTIONS, "wall_s": 0, "violations": 1}, f, indent=1)
+    print("VIOLATION property=%s replay=%s" % (prop.ID, path))
+    print("  class=build:interpreter-failed-in-%s detail=%s" % (variant, detail))
+    return 1
+
+
 def replay(prop, path):
+    with open(path) as f:
+        head = json.load(f)
+    if "build" in head:
+        variants = sorted(set(c["variant"] for c in prop.CONFIGS.values()))
+        try:
+            build.build_all(variants)
+        except build.BuildError as e:
+            if e.interpreter_failed() and getattr(e, "variant", None) == head["build"]["variant"]:
+                print("VIOLATION property=%s replay=%s" % (prop.ID, path))
+                print("  reproduced exactly: class=%s (the %s configuration fails to build the same way)" % (head["violation"]["class"], e.variant))
+                return 1
+            print("  build fails differently now: %s" % e)
+            return 2
+        print("not reproduced: the %s configuration builds now" % head["build"]["variant"])
+        return 0
     with open(path) as f:
         rp = json.load(f)
     variants = sorted(set(c["variant"] for c in prop.CONFIGS.values()))
